@@ -726,6 +726,19 @@ pub mod verif {
         super::resend_stdio(task_id, channel, stdio, stream).await
     }
 
+    /// The real `handle_task_with_signals`: waits for `task_future` while reacting to a stop
+    /// command (SIGINT to the process group of `pid`, one second of grace, SIGKILL).
+    pub async fn handle_task_with_signals<
+        F: std::future::Future<Output = tako::Result<tako::launcher::TaskResult>>,
+    >(
+        task_future: F,
+        pid: u32,
+        task_id: TaskId,
+        end_receiver: tokio::sync::oneshot::Receiver<tako::launcher::StopReason>,
+    ) -> tako::Result<tako::launcher::TaskResult> {
+        super::handle_task_with_signals(task_future, pid, task_id, end_receiver).await
+    }
+
     /// The environment variables the real `insert_resources_into_env` gives to a task
     /// (HQ_RESOURCE_VALUES_*, HQ_CPUS, CUDA_VISIBLE_DEVICES, ...), so that a fake launcher can
     /// compare what a task is told with what it holds.
